@@ -25,7 +25,7 @@ pub mod runtime {
 
     impl Builder {
         fn make() -> Self {
-            let _ = crate::sim::clock::keep_symbols();
+            let _ = crate::sim::clock::keep_symbols() ^ crate::sim::resolv::keep_symbols();
             let seed = crate::sim::clock::env_seed();
             let mut b = real_tokio::runtime::Builder::new_current_thread();
             b.start_paused(true);
